@@ -948,13 +948,6 @@ def _mask(sig, num_args, hide_args, hide_kwargs,
 
     partial_mode = partial_obj is not None
 
-    if hide_kwargs:
-        _remove_from_src(src, _pnames(pokargs))
-        _remove_from_src(src, kwoargs)
-        pokargs = []
-        kwoargs = {}
-        named_args = []
-
     for kwarg_name in named_args:
         if kwarg_name in consumed_names:
             raise ValueError('Duplicate argument: {0!r}'.format(kwarg_name))
@@ -993,6 +986,14 @@ def _mask(sig, num_args, hide_args, hide_kwargs,
                 default=named_args[kwarg_name])
             src[kwarg_name] = [partial_obj]
         consumed_names.add(kwarg_name)
+
+    if hide_kwargs:
+        # only now: the named arguments above still have to fit the
+        # signature, and naming a positional parameter rules out *args
+        _remove_from_src(src, _pnames(pokargs))
+        _remove_from_src(src, kwoargs)
+        pokargs = []
+        kwoargs = {}
 
     if hide_kwargs or hide_varkwargs:
         if varkwargs:
